@@ -32,7 +32,10 @@ func HarnessC18Converter() {
 	}[vx.Choose("inner", 7)]
 	tbl := `<table id="t"` + attrs + `>` + inner + `</table>`
 	place := []string{`<div><p>alpha</p>%s</div>`, `<ul><li>item %s</li></ul>`, `<div contenteditable="true">%s</div>`, `<blockquote>%s</blockquote>`}[vx.Choose("place", 4)]
-	doc := vx.ParseHTML("<html><head><title>T</title></head><body>" + strings.Replace(place, "%s", tbl, 1) + "</body></html>")
+	// elements the converter skips (empty, or marked as a sharing widget) that
+	// say they are editable, before the table: they do not enclose it
+	before := []string{"", `<div contenteditable="true"></div>`, `<div contenteditable="true" class="sharing">share</div><p contenteditable="true" hidden>x</p>`}[vx.Choose("before", 3)]
+	doc := vx.ParseHTML("<html><head><title>T</title></head><body>" + before + strings.Replace(place, "%s", tbl, 1) + "</body></html>")
 	t := dom.QuerySelector(doc, "table")
 	want, _ := tableclass.NewClassifier(nil).Classify(t)
 	b := webdoc.NewWebDocumentBuilder(c18Counter{}, nil)
